@@ -579,6 +579,9 @@ class RedlineEngine:
         occupied_ranges: List[Tuple[int, int]] = []
 
         # Indexed First (Reverse Order)
+        # Edits at the same offset (two insertions in a row) are applied last-first as well, so that
+        # they end up in the order they were given.
+        indexed_edits.reverse()
         indexed_edits.sort(key=lambda x: x._match_start_index or 0, reverse=True)
         for edit in indexed_edits:
             # Fix 5.6: Prevent collisions from overlapping edits
